@@ -1,13 +1,13 @@
 typedef unsigned long u64;
-u64 ga = 389; u64 gb = 440; u64 gc_[4] = {1,2,3,126}; static u64 sa = 26; static u64 sb[3] = {558,5,6};
+u64 ga = 406; u64 gb = 505; u64 gc_[4] = {1,2,3,209}; static u64 sa = 208; static u64 sb[3] = {279,5,6};
 __thread u64 tva = 3; __thread u64 tvb = 4;
 extern u64 ext_a, ext_b; extern u64 ext_f(u64); extern u64 ext_g(u64);
-__attribute__((noinline)) u64 fn0(u64 x) { return x * 319 + ga + sb[0]; }
-__attribute__((noinline)) static u64 sf0(u64 x) { return (x ^ 389) + sa + gb; }
-__attribute__((noinline)) u64 fn1(u64 x) { return x * 823 + ga + sb[1]; }
-__attribute__((noinline)) static u64 sf1(u64 x) { return (x ^ 440) + sa + gb; }
-__attribute__((noinline)) u64 fn2(u64 x) { return x * 5 + ga + sb[2]; }
-__attribute__((noinline)) static u64 sf2(u64 x) { return (x ^ 126) + sa + gb; }
+__attribute__((noinline)) u64 fn0(u64 x) { return x * 773 + ga + sb[0]; }
+__attribute__((noinline)) static u64 sf0(u64 x) { return (x ^ 406) + sa + gb; }
+__attribute__((noinline)) u64 fn1(u64 x) { return x * 97 + ga + sb[1]; }
+__attribute__((noinline)) static u64 sf1(u64 x) { return (x ^ 505) + sa + gb; }
+__attribute__((noinline)) u64 fn2(u64 x) { return x * 291 + ga + sb[2]; }
+__attribute__((noinline)) static u64 sf2(u64 x) { return (x ^ 209) + sa + gb; }
 u64 (*const ftab[])(u64) = {fn0, fn1, fn2, sf0, sf1, sf2};
 u64 *ptab[] = { &ga, &gb, &gc_[2], &sa, &sb[1], &ext_a };
 __attribute__((constructor)) static void ctor_a(void) { ga += 1; }
